@@ -110,6 +110,15 @@ def _events():
        {"s": {"STRICT_PARSING": "True", "CACHE_SIZE_LIMIT": "500"}})
     ev("fail: STRICT_PARSING 1, CACHE 500.0 (compare equal to valid values)", lambda a: P("March 2015", languages=["en"], settings=a["s"]),
        {"s": {"STRICT_PARSING": 1, "CACHE_SIZE_LIMIT": 500.0}})
+    # language detection inside search reads per-locale character sets with NORMALIZE off; ordinary parses fill per-locale caches with
+    # NORMALIZE on: detection between two candidate languages that hinges on an accented letter must not depend on which came first
+    ev("parse(es, accented)", lambda a: P("5 de marzo de 2021, miércoles", languages=a["l"]), {"l": ["es"]}, core=True)
+    ev("search(en+es, accent decides the language)", lambda a: search_dates("Año: March 5, 2021", languages=a["l"], add_detected_language=True), {"l": ["en", "es"]}, core=True)
+    ev("parse(de, accented)", lambda a: P("5. März 2021", languages=a["l"]), {"l": ["de"]})
+    ev("search(en+de, accent decides the language)", lambda a: search_dates("März: 5 March 2021", languages=a["l"], add_detected_language=True), {"l": ["en", "de"]})
+    # lenient clock spellings (24-hour value with a meridian) before ordinary 12-hour times
+    ev("parse(16:50 pm)", lambda a: P("December 23, 2010, 16:50 pm", languages=["en"]))
+    ev("parse(3:30 PM)", lambda a: P("March 5, 2024 3:30 PM", languages=["en"]))
     # the same numbers through both calendar parsers: a conversion remembered by one must not answer for the other
     ev("jalali 1394/06/26", lambda a: JalaliCalendar("1394/06/26").get_date())
     ev("hijri 1394/06/26", lambda a: HijriCalendar("1394/06/26").get_date())
